@@ -71,6 +71,8 @@ def _compat(word, i):
 DUNDER += [_compat(w, i) for i, w in enumerate(["class", "elif", "_dict", "__init__", "None", "import", "__class__",
                                                   "lambda", "__dict__", "def", "__weakref__", "yield"])]
 DUNDER += ["cla\u017fs", "\uff3f\uff3finit__", "de\uff46"]
+# names that mean something to str.format / % formatting (they end up inside error messages)
+DUNDER += ["{id}", "{0}", "{", "}", "/users/{id}", "%s", "%(x)s", "{!r}", "{0.__class__}", "{{}}", "{name!z}"]
 
 
 @st.composite
@@ -130,6 +132,17 @@ def widen(draw, schema, flags, depth=0):
         name = draw(st.sampled_from(DUNDER))
         s["properties"][name] = draw(st.sampled_from([{}, {"type": "integer"}, {"type": "number"}, True]))
         flags.add("odd-property-name")
+    if draw(st.integers(0, 5)) == 0 and s.get("type", "object") == "object":
+        # the same odd names as REQUIRED keys / dependency keys (missing ones are named in error messages)
+        name = draw(st.sampled_from(DUNDER))
+        how = draw(st.sampled_from(["required", "required", "dependencies-list", "dependencies-key"]))
+        if how == "required":
+            s["required"] = list(s.get("required", [])) + ([name] if name not in s.get("required", []) else [])
+        elif how == "dependencies-list":
+            s.setdefault("dependencies", {}).setdefault("a", [name])
+        else:
+            s.setdefault("dependencies", {}).setdefault(name, ["b"])
+        flags.add("odd-required-name")
     if "enum" in s and draw(st.integers(0, 3)) == 0:
         s["enum"] = s["enum"] + [draw(st.sampled_from(EXTREME_NUMS + ODD_STRINGS[:8]))]
         flags.add("extreme-literal")
@@ -182,6 +195,8 @@ def cases(draw):
                 schema = {kind: schema}
         flags.add("deep-schema")
     values = base_values + [draw(wide_values()) for _ in range(draw(st.integers(2, 4)))]
+    if "odd-required-name" in flags:
+        values += [{}, {"a": 1}, [{}], {"a": {}}]
     return {"schema": schema, "values": values, "flags": sorted(flags),
             "pipeline": draw(st.sampled_from(observe.PIPELINES))}
 
